@@ -183,6 +183,50 @@ def boundary_values(s, w, limit=40):
     return out[:limit]
 
 
+def absent_key_probes(s, v, limit=40):
+    """values that add, somewhere inside `v`, a key the schema DECLARES (required or optional) but `v` does not give, with
+    values of several kinds — the probes that tell whether an operation on (schema, v) kept the constraint on that key"""
+    from niltype import Nil
+    from d42.declaration.types import AnySchema, DictSchema, GenericTypeAliasSchema, ListSchema
+    out = []
+
+    def rec(sc, x, put):
+        if len(out) >= limit:
+            return
+        if isinstance(sc, GenericTypeAliasSchema):
+            return rec(sc.props.type, x, put)
+        if isinstance(sc, AnySchema):
+            ts = sc.props.get("types")
+            for t in ([] if ts is Nil else ts):
+                rec(t, x, put)
+            return
+        if isinstance(sc, DictSchema) and isinstance(x, dict):
+            keys = sc.props.get("keys")
+            if keys is Nil:
+                return
+            for k, (sub, _opt) in keys.items():
+                if k is Ellipsis:
+                    continue
+                if k not in x:
+                    for bad in (5, "x", None, [], {}, 1.5):
+                        put({**x, k: bad})
+                else:
+                    rec(sub, x[k], lambda nv, k=k: put({**x, k: nv}))
+            return
+        if isinstance(sc, ListSchema) and isinstance(x, list):
+            t = sc.props.get("type")
+            els = sc.props.get("elements")
+            for i, xi in enumerate(x):
+                sub = t if t is not Nil else None
+                if sub is None and els is not Nil:
+                    conc = [e for e in els if e is not Ellipsis]
+                    sub = conc[i] if i < len(conc) and (len(els) == len(conc) or els[-1] is Ellipsis) else (conc[-1] if conc else None)
+                if sub is not None:
+                    rec(sub, xi, lambda nv, i=i: put(x[:i] + [nv] + x[i + 1:]))
+    rec(s, v, out.append)
+    return out[:limit]
+
+
 CORPUS_STATS = {}
 
 
@@ -240,6 +284,19 @@ def scalar_corpus():
                  ('schema.dict({"k": schema.list([schema.str, schema.any, schema.any]).len(3)})', {"k": ["a", 1, None]}),
                  ("schema.list([schema.list([schema.any]), schema.any(schema.any, schema.none)])", [[1], None])]:
         add(e, w)
+    # alias of an alias (and of a union) below the root: errors must keep the path of the position they sit at
+    for e, w in [('schema.dict({"id": schema.alias("a", schema.alias("b", schema.int.min(0)))})', {"id": 1}),
+                 ('schema.list(schema.alias("a", schema.alias("b", schema.alias("c", schema.str.len(1)))))', ["x", "y"]),
+                 ('schema.dict({"k": schema.list([schema.none, schema.alias("a", schema.alias("b", schema.dict({"n": schema.int})))])})',
+                  {"k": [None, {"n": 1}]}),
+                 ('schema.list([..., schema.alias("u", schema.alias("v", schema.int) | schema.none), ...])', [0, None, 0]),
+                 ('schema.alias("r", schema.alias("s", schema.list(schema.alias("t", schema.alias("q", schema.int)))))', [1, 2])]:
+        add(e, w)
+    # strings with line breaks and separators where a union reports them (one rendered line per error)
+    for v in ("first line\nsecond line", "a\r\nb", "x\n - y", "\u2028sep", "tab\there"):
+        add("schema.any(schema.int, schema.none, schema.str(v))", v, v=v)
+        add('schema.dict({"f": schema.any(schema.int, schema.str(v))})', {"f": v}, v=v)
+        add("schema.list(schema.any(schema.int, schema.str(v)))", [v, 1], v=v)
     # sizes and numbers past CPython's small-int cache (-5..256): equal but not identical objects
     for n in (256, 257, 300, 1000):
         add("schema.list(schema.int).len(n)", [0] * n, n=n)
